@@ -59,9 +59,9 @@ def check_tasks(ctx) -> None:
     if ex is None:
         ctx.bad("C06.tasks", fn, fn.node, "result rows are no longer built by extract_knockout_results")
     else:
-        rows = [n for n in walk_local(ex.node) if isinstance(n, (ast.ListComp, ast.GeneratorExp))]
-        if rows and "ids" in norm(rows[0].elt) and "growth" in norm(rows[0].elt) and "status" in norm(rows[0].elt) and not rows[0].generators[0].ifs:
-            ctx.ok("C06.tasks", ex, rows[0], "exactly one row (ids, growth, status) per task result")
+        rb = fa.row_builder(ex)
+        if rb is not None and rb[2] and {"ids", "growth", "status"} <= set(rb[3]):
+            ctx.ok("C06.tasks", ex, rb[1], "exactly one row (ids, growth, status) per task result")
         else:
             ctx.bad("C06.tasks", ex, ex.node, "result rows are filtered or do not carry (ids, growth, status)")
     el = prog.func("cobra.flux_analysis.deletion", "_element_lists")
